@@ -400,6 +400,28 @@ fn real_upgrade(cfg: &Cfg, rep: &mut Report, h: u64) {
     rep.check("migrate", r1.is_ok(), "C16/migrate/upgradeable-v1/migration-refused-after-upgrade", || format!("first migrate after the working tree's upgrade: {r1:?}"));
     rep.check("migrate", r2.is_err(), "C16/migrate/upgradeable-v1/migrated-twice-after-one-upgrade", || format!("second migrate: {r2:?}"));
     rep.count("real_upgrades");
+    // second generation: a contract that ALREADY derives UpgradeableMigratable (native, working-tree
+    // macro) is upgraded through its generated `upgrade`; the successor must be able to migrate once
+    let c2 = e.register(Migr, (u[0].clone(),));
+    let a = args!(e, hash.clone(), u[0]);
+    w.auth(&[(u[0].clone(), Inv::new(&c2, "upgrade", a.clone()))]);
+    let r: Result<(), Fail> = invoke(e, &c2, "upgrade", a);
+    rep.evaluations += 1;
+    rep.op(format!("migratable.upgrade(v2 wasm) by owner -> {}", tag(&r)));
+    if r.is_ok() {
+        e.mock_all_auths();
+        let r1: Result<(), Fail> = invoke(e, &c2, "migrate", args!(e, data.clone(), u[0]));
+        e.mock_all_auths();
+        let r2: Result<(), Fail> = invoke(e, &c2, "migrate", args!(e, data.clone(), u[0]));
+        rep.evaluations += 2;
+        rep.op(format!("successor.migrate -> {} ; again -> {}", tag(&r1), tag(&r2)));
+        rep.case(format!("second-generation-upgrade/{}/{}", tag(&r1), tag(&r2)));
+        rep.check("migrate", r1.is_ok(), "C16/migrate/derived-migratable/migration-refused-after-upgrade", || format!("first migrate after the derived UpgradeableMigratable::upgrade: {r1:?}"));
+        rep.check("migrate", r2.is_err(), "C16/migrate/derived-migratable/migrated-twice-after-one-upgrade", || format!("second migrate: {r2:?}"));
+        rep.count("second_generation_upgrades");
+    } else {
+        rep.notes.push(format!("derived upgrade to the prebuilt wasm failed in this host ({r:?})"));
+    }
     rep.end_history();
 }
 
